@@ -142,6 +142,9 @@ ev3 = z3.Function('ev3', Int, Int, Int, ISeq)
 dropc = z3.Function('dropc', CSeq, CSeq)               # the trace without its comment events
 levent = z3.Function('levent', Int, Int, ISeq)         # writer w: the event written for literal l (defined per writer by its contract)
 tevent = z3.Function('tevent', Int, Int, Int, ISeq)    # writer w: the event written for a pseudo-Boolean term (coefficient, literal)
+evrow = z3.Function('evrow', Int, ISeq, ISeq)          # one write() whose text is prefix + sep.join(text_of(l) for l in clause) + suffix: (template id, clause)
+rowapp = z3.Function('rowapp', Int, CSeq, Int, CSeq)   # writer w: the trace after the events of row i were appended (defined by the writer's contract)
+rowsfrom = z3.Function('rowsfrom', Int, CSeq, Int, CSeq)   # rows 0..t-1 appended to a trace, one after the other
 cevent = z3.Function('cevent', Int, Int, Int, ISeq)    # writer w: the event that closes a pseudo-Boolean constraint (1 if the relation is >= else 0, degree)
 dterms = z3.Function('dterms', Int, TSeq, Int, CSeq)   # events of the first j terms of a constraint
 dcons = z3.Function('dcons', Int, OSeq, Int, CSeq)     # events of the first t constraints
@@ -175,7 +178,7 @@ FUNCS = dict(tlen=tlen, tcoef=tcoef, tlit=tlit, tunit=tunit, tnegc=tnegc, tset=t
              maxof=maxof, minof=minof, maxabs=maxabs, lit_true=lit_true, count=count, ctrue=ctrue,
              clen=clen, cget=cget, cnil=cnil, csnoc=csnoc, capp=capp, ctake=ctake, combs=combs, sat=sat,
              cmaxabs=cmaxabs, pow2=pow2, chaszero=chaszero, psum=psum, card2=card2, isperm=isperm, sortedperm=sortedperm, invperm=invperm, imapsub=imapsub, zpos=zpos, mpos=mpos, rnbrs=rnbrs, apseq=apseq, negunits=negunits, idxcombs=idxcombs, iflip1=iflip1, iflips=iflips, neqprefix=neqprefix, signvecs=signvecs, sprod=sprod, smul=smul, pfilter=pfilter, iofarr=iofarr, nbrs=nbrs, evar=evar, liftcls=liftcls, liftsem=liftsem, yblock=yblock, implchain=implchain, ishift=ishift, preds=preds, outdeg=outdeg, gtopo=gtopo, gsinkok=gsinkok,
-             ev3=ev3, dropc=dropc, dterms=dterms, dcons=dcons, tevent=tevent, cevent=cevent, dlits=dlits, dclauses=dclauses, levent=levent, gad=gad, cdist_tab=cdist_tab, cdist=cdist, cdistall=cdistall, cind=cind, satind=satind, aind=aind)
+             ev3=ev3, evrow=evrow, rowapp=rowapp, rowsfrom=rowsfrom, dropc=dropc, dterms=dterms, dcons=dcons, tevent=tevent, cevent=cevent, dlits=dlits, dclauses=dclauses, levent=levent, gad=gad, cdist_tab=cdist_tab, cdist=cdist, cdistall=cdistall, cind=cind, satind=satind, aind=aind)
 
 
 def zmax(a, b):
@@ -364,6 +367,12 @@ def _on_terms(terms_by_decl):
     # --- output traces
     for (tid, x, y) in terms_by_decl.get('ev3', []):
         out.append(ev3(tid, x, y) != evcomment)                                   # Trace.lean ev3_ne_comment (tid >= 0 by construction)
+    for (tid, c) in terms_by_decl.get('evrow', []):
+        out.append(evrow(tid, c) != evcomment)                                    # Trace.lean evrow_ne_comment
+    for (w, T, t) in terms_by_decl.get('rowsfrom', []):
+        # Trace.lean rowsfrom_zero / rowsfrom_succ
+        out.append(z3.Implies(t == 0, rowsfrom(w, T, t) == T))
+        out.append(z3.Implies(t >= 0, rowsfrom(w, T, t + 1) == rowapp(w, rowsfrom(w, T, t), t)))
     for (tr,) in terms_by_decl.get('dropc', []):
         out.append(z3.Implies(tr == cnil, dropc(tr) == cnil))
         if z3.is_app(tr) and tr.decl().name() == 'csnoc':
